@@ -128,6 +128,10 @@ type Case struct {
 	ShareLabels bool `json:"share_labels,omitempty"`
 	// StoreCtx: the storage honours a cancelled context in every callback.
 	StoreCtx bool `json:"store_ctx,omitempty"`
+	// QCancel: a "cancel"/"block" fault cancels through the query object (Query.Cancel
+	// called from a storage callback / from another goroutine while the callback is
+	// blocked) instead of through the context given to Exec.
+	QCancel bool `json:"qcancel,omitempty"`
 }
 
 func (c *Case) Key() string {
